@@ -170,6 +170,23 @@ pub fn op_parse(s: &str) -> String {
                 law_doors.ck(t == s, &format!("d{}_text_differs", i + 1));
             }
         }
+        // the two serde doors again, through a format that is not self-describing (typed hints only, `deserialize_any` refused,
+        // not human readable): the same decision and the same text
+        for (n, r) in [
+            ("hint_only_owned", guard(|| <PointerBuf as Deserialize>::deserialize(HintOnly { s, borrowed: false }).ok().map(|b| b.as_str().to_owned()))),
+            ("hint_only_owned_from_borrowed", guard(|| <PointerBuf as Deserialize>::deserialize(HintOnly { s, borrowed: true }).ok().map(|b| b.as_str().to_owned()))),
+            ("hint_only_borrowed", guard(|| <&Pointer as Deserialize>::deserialize(HintOnly { s, borrowed: true }).ok().map(|b| b.as_str().to_owned()))),
+        ] {
+            match r {
+                None => law_doors.fail(&format!("{n}_panic")),
+                Some(t) => {
+                    law_doors.ck(t.is_some() == ok1, &format!("{n}_decides_differently"));
+                    if let Some(t) = t {
+                        law_doors.ck(t == s, &format!("{n}_text_differs"));
+                    }
+                }
+            }
+        }
         if let Door::Err(e1) = &d1 {
             for (i, d) in [&d2, &d3, &d4, &d5].iter().enumerate() {
                 if let Door::Err(e) = d {
@@ -915,6 +932,22 @@ pub fn op_deser(s: &str) -> String {
                         law.ck(t.as_bytes() == v.as_slice(), &format!("{n}_text_differs_from_the_bytes_given"));
                     }
                     Some(None) => {}
+                }
+            }
+        }
+    }
+    // a format that is not self-describing (typed hints only): both doors decide as the grammar says, and what is accepted is the input
+    for (n, r) in [
+        ("hint_only_owned", guard(|| <PointerBuf as Deserialize>::deserialize(HintOnly { s, borrowed: false }).ok().map(|b| b.as_str().to_owned()))),
+        ("hint_only_option", guard(|| <Option<PointerBuf> as Deserialize>::deserialize(HintOnly { s, borrowed: false }).ok().flatten().map(|b| b.as_str().to_owned()))),
+        ("hint_only_borrowed", guard(|| <&Pointer as Deserialize>::deserialize(HintOnly { s, borrowed: true }).ok().map(|b| b.as_str().to_owned()))),
+    ] {
+        match r {
+            None => law.fail(&format!("{n}_panicked")),
+            Some(t) => {
+                law.ck(t.is_some() == valid, &format!("{n}_{}", if valid { "rejected_valid" } else { "accepted_invalid" }));
+                if let Some(t) = t {
+                    law.ck(t == s, &format!("{n}_text_differs"));
                 }
             }
         }
